@@ -61,6 +61,24 @@ def canon_exc(x):
     return out
 
 
+def materialise(value, world):
+    """A fresh copy of an instance; in `decimal_floats` worlds every float arrives as decimal.Decimal
+    (what json.loads(..., parse_float=Decimal) gives a caller): numbers are numbers.Number to the library."""
+    if not world.get("decimal_floats"):
+        return copy.deepcopy(value)
+    from decimal import Decimal
+
+    def conv(v):
+        if isinstance(v, float):
+            return Decimal(repr(v))
+        if isinstance(v, list):
+            return [conv(x) for x in v]
+        if isinstance(v, dict):
+            return dict((k, conv(x)) for k, x in v.items())
+        return v
+    return conv(value)
+
+
 def default_cfg(rng=None, **over):
     cfg = {"cache_remote": True, "urljoin_cache": "lru", "remote_cache": "lru",
            "handler_schemes": ["http", "https", "sim"], "base_mode": "from_schema",
@@ -373,7 +391,7 @@ def do_op(actor, op, instances):
     actor.collab.begin(op.get("collab"))
     inst = None
     if "inst" in op:
-        inst = copy.deepcopy(instances[op["inst"]])
+        inst = materialise(instances[op["inst"]], actor.world)
         inst0 = fast(inst)
     out = None
     ctx = GcAt(actor, op["gc_at"]) if op.get("gc_at") else _NoCtx()
